@@ -470,7 +470,8 @@ _E2 = {}
 
 
 def e2_world(which):
-    """Per-process read-only directories for the history exploration (written once)."""
+    """Per-process read-only directories for the history exploration (written once).  The two molecules are CO and
+    CO2: one name is contained in the other, so any matching of molecule names by containment collides."""
     key = (which, core.SEED)
     if key in _E2:
         return _E2[key]
@@ -488,23 +489,23 @@ def e2_world(which):
         t1 = logical_table(3, 3, 4, 'generic', 'e2-A-H2O')
         t2 = logical_table(2, 3, 4, 'generic', 'e2-A-CH4')
         t3 = logical_table(3, 2, 4, 'generic', 'e2-B-H2O')
-        w['files']['A:H2O'] = W.write_pickle_xsec(os.path.join(a, 'H2O.R15000.TauREx.pickle'), t1, 'H2O')
-        w['files']['A:CH4'] = W.write_exotransmit(os.path.join(a, 'opacCH4.dat'), t2)
-        w['files']['B:H2O'] = W.write_hdf5_xsec(os.path.join(b, 'H2O_R1000.h5'), t3, 'H2O', unit='Pa')
-        w['tables'] = {'A:H2O': t1, 'A:CH4': t2, 'B:H2O': t3,
+        w['files']['A:CO'] = W.write_pickle_xsec(os.path.join(a, 'CO.R15000.TauREx.pickle'), t1, 'CO')
+        w['files']['A:CO2'] = W.write_exotransmit(os.path.join(a, 'opacCO2.dat'), t2)
+        w['files']['B:CO'] = W.write_hdf5_xsec(os.path.join(b, 'CO_R1000.h5'), t3, 'CO', unit='Pa')
+        w['tables'] = {'A:CO': t1, 'A:CO2': t2, 'B:CO': t3,
                        'manual': logical_table(2, 2, 4, 'generic', 'e2-manual')}
-        w['avail'] = {'A': {'H2O': 'A:H2O', 'CH4': 'A:CH4'}, 'B': {'H2O': 'B:H2O'}}
+        w['avail'] = {'A': {'CO': 'A:CO', 'CO2': 'A:CO2'}, 'B': {'CO': 'B:CO'}}
     elif which == 'ktable':
         a, b = mk('A'), mk('B')
         t1 = logical_table(3, 3, 4, 'generic', 'k-A-H2O', ng=2)
         t2 = logical_table(2, 3, 4, 'generic', 'k-A-CH4', ng=3)
         t3 = logical_table(3, 2, 4, 'generic', 'k-B-H2O', ng=2)
-        w['files']['A:H2O'] = W.write_pickle_ktable(os.path.join(a, 'H2O.R100.ktable.TauREx.pickle'), t1, 'H2O')
-        w['files']['A:CH4'] = W.write_hdf5_ktable(os.path.join(a, 'CH4_R100.h5'), t2, unit='bar', name='CH4')
-        w['files']['B:H2O'] = W.write_hdf5_ktable(os.path.join(b, 'H2O_R100.hdf5'), t3, unit='Pa', name='H2O')
-        w['tables'] = {'A:H2O': t1, 'A:CH4': t2, 'B:H2O': t3,
+        w['files']['A:CO'] = W.write_pickle_ktable(os.path.join(a, 'CO.R100.ktable.TauREx.pickle'), t1, 'CO')
+        w['files']['A:CO2'] = W.write_hdf5_ktable(os.path.join(a, 'CO2_R100.h5'), t2, unit='bar', name='CO2')
+        w['files']['B:CO'] = W.write_hdf5_ktable(os.path.join(b, 'CO_R100.hdf5'), t3, unit='Pa', name='CO')
+        w['tables'] = {'A:CO': t1, 'A:CO2': t2, 'B:CO': t3,
                        'manual': logical_table(2, 2, 4, 'generic', 'k-manual', ng=2)}
-        w['avail'] = {'A': {'H2O': 'A:H2O', 'CH4': 'A:CH4'}, 'B': {'H2O': 'B:H2O'}}
+        w['avail'] = {'A': {'CO': 'A:CO', 'CO2': 'A:CO2'}, 'B': {'CO': 'B:CO'}}
     else:
         a, b, m = mk('A'), mk('B'), mk('M')
         rg = fx.rng('c14-e2-cia')
@@ -529,9 +530,9 @@ def e2_world(which):
 
 OPS = {
     'xsec': [['path', 'A'], ['path', 'B'], ['interp', 'linear'], ['interp', 'exp'], ['mem', True], ['mem', False],
-             ['get', 'H2O'], ['get', 'CH4'], ['add', 'H2O'], ['add', 'CH4'], ['clear']],
+             ['get', 'CO'], ['get', 'CO2'], ['add', 'CO'], ['add', 'CO2'], ['clear']],
     'ktable': [['path', 'A'], ['path', 'B'], ['interp', 'linear'], ['interp', 'exp'],
-               ['get', 'H2O'], ['get', 'CH4'], ['add', 'H2O'], ['clear']],
+               ['get', 'CO'], ['get', 'CO2'], ['add', 'CO'], ['clear']],
     'cia': [['path', 'A'], ['path', 'B'], ['path', 'M'], ['get', 'H2-He'], ['get', 'H2-H2'], ['add', 'H2-He'],
             ['add', 'H2-H2']],
 }
@@ -743,7 +744,7 @@ def hist_cia(case):
 # ----------------------------------------------------------------------------------------------
 DROP_FORMATS = {'xsec': ['pickle', 'h5', 'exo'], 'ktable': ['kpickle', 'kh5'], 'cia': ['db', 'cia']}
 DROP_OPS = [['get', 'X'], ['get', 'Y'], ['drop', 'Y'], ['interp', 'exp'], ['clear']]
-DROP_NAMES = {'xsec': ('H2O', 'CH4'), 'ktable': ('H2O', 'CH4'), 'cia': ('H2-He', 'H2-H2')}
+DROP_NAMES = {'xsec': ('CO2', 'CO'), 'ktable': ('CO2', 'CO'), 'cia': ('H2-He', 'H2-H2')}
 
 
 def _drop_write(which, fmt, d, mol, salt):
